@@ -415,6 +415,112 @@ func checkC13(c *Ctx, r *Report) {
 		}
 	}
 	r.Check(okBase, "S-get", "format without an override block gets the base copy", c.pos(get.Pos()), "the not-found edge of the overrides lookup must return the freshly merged base Info")
+	// every Info that Get returns is the destination of the deep-copying base
+	// merge, and that merge has run: a plain struct copy (cp := c.Info) shares
+	// the maps and slices of the configuration with the caller
+	{
+		var baseMerge *ssa.Call
+		var baseDst ssa.Value
+		for _, m := range merges {
+			dst := m.Call.Args[0]
+			if mi, ok := dst.(*ssa.MakeInterface); ok {
+				dst = mi.X
+			}
+			if al, ok := resolveUp(c, pa, dst).(*ssa.Alloc); ok && isPtrToNamed(al.Type(), modPath, "Info") && baseMerge == nil {
+				baseMerge, baseDst = m, al
+			}
+		}
+		okDeep := baseMerge != nil
+		why := "every success return of Get hands out the destination of the base merge, after the merge"
+		for _, b := range get.Blocks {
+			ret, ok := b.Instrs[len(b.Instrs)-1].(*ssa.Return)
+			if !ok {
+				continue
+			}
+			res := retResults(ret)
+			if len(res) != 2 {
+				continue
+			}
+			if k, isC := res[0].(*ssa.Const); isC && k.IsNil() {
+				continue // error return
+			}
+			if baseMerge == nil || res[0] != baseDst || baseMerge.Parent() == get && !instrDominates(baseMerge, ret) {
+				okDeep = false
+				why = fmt.Sprintf("the Info returned at %s is not the destination of the deep-copying merge of the base configuration (or is returned before that merge ran): its maps and lists would be the configuration's own", c.instrPos(ret))
+			}
+		}
+		r.Check(okDeep, "S-get", "every returned Info is the deep copy made by the base merge", c.pos(get.Pos()), why)
+	}
+	// the list that is filtered by packager is the merged Info's own (after the
+	// override block has replaced it), not the configuration's base list
+	{
+		okSrc, found := true, false
+		whySrc := "the filter ranges over the fresh Info's contents"
+		scan := getFamily(c, get)
+		// ... and helpers that are handed the list itself
+		for _, fn := range append([]*ssa.Function{}, scan...) {
+			forEachInstr(fn, func(in ssa.Instruction) {
+				if call, ok := in.(*ssa.Call); ok {
+					if sc := call.Call.StaticCallee(); sc != nil && sc.Blocks != nil && c.isModuleFunc(sc) {
+						for _, a := range call.Call.Args {
+							if isContentContainer(a.Type()) {
+								dup := false
+								for _, f := range scan {
+									if f == sc {
+										dup = true
+									}
+								}
+								if !dup {
+									scan = append(scan, sc)
+								}
+							}
+						}
+					}
+				}
+			})
+		}
+		for _, fn := range scan {
+			forEachInstr(fn, func(in ssa.Instruction) {
+				call, ok := in.(*ssa.Call)
+				if !ok {
+					return
+				}
+				b, isB := call.Call.Value.(*ssa.Builtin)
+				if !isB || b.Name() != "append" || !isContentContainer(call.Type()) {
+					return
+				}
+				for _, e := range variadicElems(call.Call.Args[1]) {
+					ld, ok := e.(*ssa.UnOp)
+					if !ok {
+						continue
+					}
+					ia, ok := ld.X.(*ssa.IndexAddr)
+					if !ok {
+						continue
+					}
+					found = true
+					src := resolveUp(c, pa, ia.X)
+					root := src
+					if l2, ok := src.(*ssa.UnOp); ok {
+						_, root = addrPath(l2.X)
+						if prm, isPrm := root.(*ssa.Parameter); isPrm && prm.Parent() == get {
+							// the configuration itself (Get's receiver)
+						} else if root != nil {
+							root = resolveUp(c, pa, root)
+						}
+					}
+					if _, isAlloc := root.(*ssa.Alloc); !isAlloc {
+						okSrc = false
+						whySrc = fmt.Sprintf("the list filtered at %s is not read from the freshly merged Info (it is %s): contents set by the override block would be ignored", c.instrPos(call), shorten(valueExpr(c, src, 0), 60))
+					}
+				}
+			})
+		}
+		if !found {
+			whySrc = "no filtering append of content entries found in Config.Get or its helpers"
+		}
+		r.Check(found && okSrc, "S-get", "the content filter reads the merged contents", c.pos(get.Pos()), whySrc)
+	}
 
 	// ---- D1 content filter ----
 	cells := 0
@@ -505,6 +611,23 @@ func checkC13(c *Ctx, r *Report) {
 				}
 			}
 		})
+		// ... and it is the only table consulted: an alias table beside the
+		// registry accepts names that have no packager of their own
+		var other ssa.Instruction
+		forEachInstr(reg, func(in ssa.Instruction) {
+			if lk, ok := in.(*ssa.Lookup); ok && other == nil {
+				if _, isMap := lk.X.Type().Underlying().(*types.Map); isMap {
+					if g := rootGlobal(lk.X); g == nil || !strings.Contains(strings.ToLower(g.Name()), "packager") {
+						other = in
+					}
+				}
+			}
+		})
+		if other != nil {
+			r.Fail("V1", "nfpm.Get consults the packager registry only", c.instrPos(other), "a second table decides which format names are accepted: a name found there passes validation although no override block for it is ever applied")
+		} else {
+			r.Pass("V1", "nfpm.Get consults the packager registry only", c.pos(reg.Pos()), "one map lookup, on the registry")
+		}
 		r.Check(okR, "V1", "nfpm.Get fails for an unregistered format", c.pos(reg.Pos()), "the not-found edge of the registry lookup (keyed by the requested format) must return a non-nil error")
 	}
 
@@ -555,5 +678,9 @@ func checkC13(c *Ctx, r *Report) {
 		}
 		r.Floor("DOC-overridable", len(docKeys), 7)
 	}
+	// what the block sets is what the packager uses: with a format-specific
+	// architecture configured the stored architecture is that value (rule
+	// D3-override of C02)
+	r.Floor("used-D3-override", importRules(c, r, checkC02, "used-", []string{"D3-override"}, nil), 3)
 	r.Exhaustive = true
 }
